@@ -102,6 +102,20 @@ class LawHooks:
     def inline(self, fname):
         if fname == "_calc_inp_current":
             return self.model.func("components", fname), False
+        if self.spec:
+            return None
+        # private helpers a law delegates to: module-level functions of components.py and methods of the kind's own class
+        def simple(fn):
+            return not any(isinstance(x, (ast.For, ast.While, ast.Try, ast.With)) for x in ast.walk(fn))
+        if fname.isidentifier() and ("components", fname) in self.model.funcs:
+            fn = self.model.funcs[("components", fname)]
+            return (fn, False) if simple(fn) else None
+        if fname.startswith("self.") and fname[5:].isidentifier() and fname[5:] not in METH.values() and fname[5:] not in ("_get_pri_inp", "_get_state"):
+            try:
+                owner, fn = self.model.method(self.kind, fname[5:])
+            except AnalysisError:
+                return None
+            return (fn, True) if simple(fn) else None
         return None
 
     def call(self, sm, node, fname, args, kwargs, st):
